@@ -202,3 +202,24 @@ func sceneEnumJSON() {
 	bz1, _ := s.MarshalJSON()
 	chk("C19", vf.Implies(string(bz1) == string(bz2), st == st2), "state-json-injective")
 }
+
+// sceneEnumProtoJSON: the application reads and writes the genesis file with the proto JSON codec (gogo jsonpb),
+// reflective code the engine cannot execute. Its treatment of an enum field is narrow, though: the field is written
+// with the value's String() and read back through the value map registered for the enum (or as a number). That
+// contract is stated here in Go over the module's real String() methods and registered maps; natively
+// vf.ProtoJSONRoundTrip runs the real codec on a genesis state holding the context, and the run is an encoding
+// mismatch if the two disagree.
+func sceneEnumProtoJSON() {
+	vf.Env()
+	st, bs := vf.Uint32("state"), vf.Uint32("batchState")
+	vf.Assume(vf.And(st <= 2, bs <= 1))
+	s, b := types.RequestContextState(st), types.RequestContextBatchState(bs)
+	v1, ok1 := types.RequestContextState_value[s.String()]
+	v2, ok2 := types.RequestContextBatchState_value[b.String()]
+	model := ok1 && v1 == int32(s) && ok2 && v2 == int32(b)
+	rc := types.NewRequestContext(Svc, []sdk.AccAddress{sdk.AccAddress("provider____________")}, sdk.AccAddress("consumer____________"), InputOK,
+		coins(sdk.OneInt()), 1, false, true, 5, -1, 1, 1, 0, 1, b, s, 1, "")
+	real := vf.ProtoJSONRoundTrip(rc, model)
+	vf.Assume(real == model)
+	chk("C19", real, "exported-context-can-be-read-back-by-the-application's-json-codec")
+}
